@@ -1,9 +1,11 @@
 #![allow(clippy::all)]
 #![allow(dead_code)]
 mod core;
+mod c01;
 mod c13;
 mod c14;
 mod c15;
+mod plonkm;
 
 use crate::core::*;
 
@@ -55,9 +57,12 @@ fn main() {
         }
         i += 1;
     }
-    silence_panics();
+    if std::env::var("VERIF_BACKTRACE").is_err() {
+        silence_panics();
+    }
     let ctx = Ctx::new(&id, tier, filter);
     let code = match id.as_str() {
+        "C01" => c01::run(&ctx),
         "C13" => c13::run(&ctx),
         "C14" => c14::run(&ctx),
         "C15" => c15::run(&ctx),
